@@ -216,13 +216,21 @@ class C06(Prop):
             for r in zip(*case["cols"]):
                 want[tuple(r)] = want.get(tuple(r), 0) + Fraction(1, n)
             calls = d["calls"]
-            for i, (lo, hi) in enumerate(case["bounds"]):
-                fs = dict((a, Fraction(b)) for a, b in case["fs"][i])
-                ks = list(range(lo, hi + 1))
-                if i >= len(calls) or calls[i][0] != ks or [Fraction(w) for w in calls[i][1]] != [fs.get(x, 0) for x in ks] \
-                        or calls[i][2] != n:
-                    f.append(f"sampling-call: dimension {i} is not sampled with its marginal's weights over its degree range")
-                    break
+            # one batch of n weighted draws per dimension (the shape this code has; another shape is not judged here): the weights,
+            # up to a common factor and zero entries, are the marginal's over the inclusive degree range
+            if len(calls) == len(case["bounds"]) and all(c[2] == n for c in calls):
+                for i, (lo, hi) in enumerate(case["bounds"]):
+                    fs = dict((a, Fraction(b)) for a, b in case["fs"][i])
+                    want_w = {x: fs.get(x, Fraction(0)) for x in range(lo, hi + 1) if fs.get(x, 0) != 0}
+                    got_w = {}
+                    for x, w in zip(calls[i][0], calls[i][1]):
+                        if Fraction(w) != 0:
+                            got_w[x] = got_w.get(x, 0) + Fraction(w)
+                    zw, zg = sum(want_w.values()), sum(got_w.values())
+                    if not zg or {x: w / zg for x, w in got_w.items()} != {x: w / zw for x, w in want_w.items()}:
+                        f.append(f"sampling-call: dimension {i} is not sampled in proportion to its marginal over its degree range "
+                                 f"{lo}..{hi}")
+                        break
             # the entry point builds the table a second time (it calls create_jdd again): with the scripted columns both builds
             # see the same samples, so the dispatched loader must expose the same frequency table, and must have sampled
             if "exc" in l:
